@@ -1,13 +1,10 @@
 (* Tie theorems for the methods of KeyCache (concrete model, Model/Client.v), world Flow/World_cache.v (section Concrete):
      __init__   : `self` afterwards is cc_empty
      load_key   : `self` afterwards is cc_load of the root key built from the arguments, defaults filled in
-     _store_key : the store DECISION and the new innermost dictionary, as the local `seed_key` after the body.
-   _store_key writes through an alias (`seed_key = self._seed_keys.setdefault(..).setdefault(..)` ... `seed_key[key.l0] = key`):
-   PyAst / PyAstMut are single-owner, so in the semantics `self` is NOT updated by that store and no statement about `self`
-   afterwards is made (flow_keycache_store_key_self says so explicitly); that the Python object is updated stays covered by
-   the kernels k_cache_store / k_cache_covers and the correspondence runs cache.histories.
-   KeyCache._get_key is refused by the translator ("subscript assignment to a non-local":
-   `self._seed_keys.setdefault(..).setdefault(..)[l0] = gke`): no term, no tie. *)
+   KeyCache._store_key and KeyCache._get_key store through aliases of inner dictionaries
+   (`seed_key = self._seed_keys.setdefault(..).setdefault(..)` ... `seed_key[key.l0] = key`): PyAst / PyAstMut are single-owner, the
+   translator refuses both (fail closed): no term, no tie; they stay covered by the kernels k_cache_store / k_cache_covers /
+   k_cache_root_overwrites and the correspondence runs cache.histories. *)
 From V Require Import Prelude.Base Prelude.PyAst Prelude.PyAstMut Prelude.PyWorld gen.Kernels gen.K_cache gen.F_cache.
 From V Require Import Model.Types Model.Crypto Model.Gkdi Model.Client Flow.World_cache.
 Local Open Scope string_scope.
@@ -102,34 +99,5 @@ Proof.
   all: reflexivity.
 Qed.
 
-(* KeyCache._store_key: locals after the body *)
-Definition local_after (x : string) (r : res (PyAst.outcome (V := pv obj))) : res (option (pv obj)) :=
-  let* o := r in match o with PyAst.Next env => Ok (PyAst.lookup x env) | _ => Ok None end.
-
-Definition store_key_env (cc : ccache) (sd : bytes) (e : envelope) : PyAst.penv (V := pv obj) :=
-  [("self", VO (OCache cc)); ("target_sd", VB sd); ("key", VO (OEnv e))].
-
-(* the innermost dictionary self._seed_keys[key.root_key_identifier][target_sd] the body ends with is that level of the
-   model's cache after cc_store_key (same decision k_cache_store, same entry) *)
-Ltac store_key_script cc sd e :=
-  cbn; destruct (cc_find_seed (cc_seeds cc) (gke_rkid e, sd, gke_l0 e)) as [?x|]; cbn; [|reflexivity];
-  rewrite ?Z.gtb_ltb; rewrite ptest_or; cbn; rewrite ptest_or; cbn;
-  match goal with |- context [gke_l1 ?x <? gke_l1 e] => destruct (gke_l1 x <? gke_l1 e); cbn; [reflexivity|] end;
-  rewrite ptest_and; cbn;
-  match goal with |- context [gke_l1 e =? gke_l1 ?x] => destruct (gke_l1 e =? gke_l1 x); cbn; [|reflexivity] end;
-  match goal with |- context [gke_l2 ?x <? gke_l2 e] => destruct (gke_l2 x <? gke_l2 e); cbn; reflexivity end.
-
-Lemma flow_keycache_store_key fuel cc sd e :
-  local_after "seed_key" (PyAst.exec_block Wc fuel (pf_body k_flow_keycache_store_key) (store_key_env cc sd e))
-  = Ok (Some (VO (OSeedsRS (cc_seeds (cc_store_key cc sd e)) (gke_rkid e) sd))).
-Proof.
-  unfold local_after, store_key_env, cc_store_key, cc_set_seed, k_cache_store.
-  store_key_script cc sd e.
-Qed.
-
-(* ... and, in the single-owner semantics, `self` is what it was: the write through the alias is outside the semantics *)
-Lemma flow_keycache_store_key_self fuel cc sd e :
-  local_after "self" (PyAst.exec_block Wc fuel (pf_body k_flow_keycache_store_key) (store_key_env cc sd e))
-  = Ok (Some (VO (OCache cc))).
-Proof. unfold local_after, store_key_env. store_key_script cc sd e. Qed.
+(* KeyCache._store_key stores through an alias of an inner dictionary: vlib/flow.py refuses it (single-owner semantics), no tie. *)
 End Ties.
